@@ -6,7 +6,7 @@ VERIF = os.path.dirname(os.path.dirname(os.path.abspath(__file__)))
 CHECKS = {
  "C12": dict(
    technique="Lean 4 proof (loop invariant + token-prefix lemma) about a hand model of nameMatch, tied by exhaustive+random differential correspondence",
-   text="Theorems nameMatch_eq_spec (all well-formed descriptor lists and names: model = Recommendation 3.12.1) and scanner_visits_every_descriptor (all byte strings) are kernel-checked on every run; the model is the transliteration of uscxml::nameMatch and is compared with the compiled matcher and with the copy cut out of test-gen-c.cpp on every (list, name) over 'ab.* ' up to a length bound and on random structured/arbitrary inputs.",
+   text="Theorems nameMatch_eq_spec (all well-formed descriptor lists and names: model = Recommendation 3.12.1) and scanner_visits_every_descriptor (all byte strings) are kernel-checked on every run; the model is the transliteration of uscxml::nameMatch and is compared with the compiled matcher and with the copy cut out of test-gen-c.cpp on every (list, name) over 'ab.* ' up to a length bound and on random structured/arbitrary inputs. The matches the Promela and VHDL back-ends resolve at transform time (prefix trie over the document's event names) are read out of the emitted text and compared with the Recommendation's relation (suite static-resolution; translation validation, the trie is not modelled).",
    design_ref="6 / C12",
    note="Trusted: Lean kernel, axioms propext/Classical.choice/Quot.sound at most, the hand model (validated exhaustively on the small alphabet, sampled beyond), C-locale isspace. Static resolution in Promela/VHDL output (Trie) is covered by the trie suite of this check."),
 }
